@@ -106,6 +106,10 @@ func (r *run) syncEvent(as []*actor, e Ev) {
 			}
 		}
 	}
+	r.lagAfter = 0
+	if e.Post == "lag" {
+		r.lagAfter = mod(e.N, 5) // the snapshot update may have read the log already when it is left behind
+	}
 	r.pump(f, g, e.MF, e.Post == "lag", "hold")
 	// responses
 	for _, c := range calls {
@@ -140,11 +144,16 @@ func (r *run) syncEvent(as []*actor, e Ev) {
 			}
 		}
 	}
+	for _, c := range calls {
+		if c.state == "finished" && c.pre != nil {
+			r.checkErrorPacks(c)
+		}
+	}
 	if r.on("entry") {
 		w.tick(0)
 		for _, c := range calls {
 			if c.state == "finished" {
-				r.mon.checkEntries(r, c)
+				r.mon.checkEntries(r, c, len(calls) >= 2)
 			}
 		}
 	}
